@@ -13,7 +13,25 @@ pub mod time {
     static mut NOW: i64 = 0;
     pub fn verif_set_now(t: i64) { unsafe { NOW = t } }
     impl Timestamp {
+        pub const UNIX_EPOCH: Timestamp = Timestamp(0);
+        pub const MAX: Timestamp = Timestamp(i64::MAX);
+        pub const MIN: Timestamp = Timestamp(i64::MIN);
         pub fn now() -> Timestamp { Timestamp(unsafe { NOW }) }
+        pub fn as_second(&self) -> i64 { self.0 }
+        pub fn from_second(s: i64) -> Result<Timestamp, ()> { Ok(Timestamp(s)) }
+        pub fn checked_add(self, d: std::time::Duration) -> Result<Timestamp, ()> { self.0.checked_add(d.as_secs() as i64).map(Timestamp).ok_or(()) }
+        pub fn checked_sub(self, d: std::time::Duration) -> Result<Timestamp, ()> { self.0.checked_sub(d.as_secs() as i64).map(Timestamp).ok_or(()) }
+        pub fn saturating_add(self, d: std::time::Duration) -> Timestamp { Timestamp(self.0.saturating_add(d.as_secs() as i64)) }
+        pub fn saturating_sub(self, d: std::time::Duration) -> Timestamp { Timestamp(self.0.saturating_sub(d.as_secs() as i64)) }
+        pub fn duration_since(self, o: Timestamp) -> SignedDuration { SignedDuration(self.0 - o.0) }
+        pub fn duration_until(self, o: Timestamp) -> SignedDuration { SignedDuration(o.0 - self.0) }
+    }
+    impl std::ops::Sub<std::time::Duration> for Timestamp {
+        type Output = Timestamp;
+        fn sub(self, d: std::time::Duration) -> Timestamp { Timestamp(self.0 - d.as_secs() as i64) }
+    }
+    impl std::ops::AddAssign<std::time::Duration> for Timestamp {
+        fn add_assign(&mut self, d: std::time::Duration) { self.0 += d.as_secs() as i64 }
     }
     impl std::ops::Add<std::time::Duration> for Timestamp {
         type Output = Timestamp;
@@ -29,7 +47,16 @@ pub mod time {
     }
     #[derive(Clone, Copy, Debug, PartialEq, Eq, PartialOrd, Ord)]
     pub struct SignedDuration(pub i64);
-    impl SignedDuration { pub const MAX: SignedDuration = SignedDuration(i64::MAX); }
+    impl SignedDuration {
+        pub const MAX: SignedDuration = SignedDuration(i64::MAX);
+        pub const ZERO: SignedDuration = SignedDuration(0);
+        pub fn as_secs(&self) -> i64 { self.0 }
+        pub fn from_secs(s: i64) -> Self { SignedDuration(s) }
+        pub fn is_negative(&self) -> bool { self.0 < 0 }
+        pub fn is_zero(&self) -> bool { self.0 == 0 }
+        pub fn is_positive(&self) -> bool { self.0 > 0 }
+        pub fn unsigned_abs(&self) -> std::time::Duration { std::time::Duration::from_secs(self.0.unsigned_abs()) }
+    }
     impl TryFrom<std::time::Duration> for SignedDuration { type Error = (); fn try_from(d: std::time::Duration) -> Result<Self, ()> { let s = d.as_secs(); if s > i64::MAX as u64 { Err(()) } else { Ok(SignedDuration(s as i64)) } } }
     #[derive(Clone, Copy, Debug, serde::Deserialize)]
     pub struct Span(pub i64);
